@@ -6,6 +6,7 @@ import (
 	"context"
 	"fmt"
 	"math/rand"
+	"net"
 	"os"
 	"sort"
 	"strings"
@@ -16,6 +17,7 @@ import (
 )
 
 type c01Req struct {
+	od       bool // an on-demand TLS handshake on an instance of its own (for the LTS: manage, async)
 	cancel   context.CancelFunc
 	id       int
 	kind     string // obtain | renew | manage
@@ -108,6 +110,12 @@ func c01Events(r *c01Req, ops []vOp, calls []vIssueCall, foreignWrites []int64) 
 	} else if mode == "renew" {
 		// manage that became renew: the LTS does a second `pre` (renew has no pre-check)
 		emit(float64(ops[i].Seq)-0.5, "pre:%d", r.id)
+	}
+	if ops[i].Out == "cancel" && r.od {
+		// an on-demand obtain waits for the lock for at most its documented 180 s: the handshake
+		// fails, the request leaves the scene while waiting
+		emit(float64(ops[i].Seq), "die:%d", r.id)
+		return evs, ""
 	}
 	if ops[i].Out == "err" {
 		// the locker refused (injected error): the request gives up without ever holding the lock —
@@ -295,7 +303,9 @@ func c01Scenario(t *testing.T, o *vOut, seed int64, maxN, scIdx int) {
 		baseOps := len(getOps())
 		baseCalls := len(iss.Calls())
 		// requests
+		odOK := !strings.ContainsAny(canon, "*_") && net.ParseIP(canon) == nil // a name a handshake can ask for on demand
 		reqs := make([]*c01Req, n)
+		haveOD := false
 		kinds := []string{"obtain", "renew", "manage"}
 		for i := range reqs {
 			r := &c01Req{id: i + 1, kind: kinds[rng.Intn(3)], async: rng.Intn(3) == 0, spelling: fam[0]}
@@ -309,6 +319,21 @@ func c01Scenario(t *testing.T, o *vOut, seed int64, maxN, scIdx int) {
 				r.spelling = fam[rng.Intn(len(fam))]
 			}
 			r.cache, r.cfg = vNewCfg(st, []Issuer{iss})
+			// an on-demand handshake: loads from storage, obtains (with retries, inside the lock) when
+			// nothing is there — the same load / pre-check / lock / re-check / issue / save as a manage
+			// request. (A due certificate would be renewed in the background after the handshake has
+			// been answered: not a request whose end can be awaited here.)
+			// (one per scenario: the single-flight maps of handshakes are per PROCESS, two on-demand
+			// "instances" inside this one process would share them — C13's subject)
+			if odOK && initial != "due" && rng.Intn(3) == 0 && !haveOD {
+				haveOD = true
+				r.kind, r.async, r.od = "manage", true, true
+				r.spelling = []string{canon, strings.ToUpper(canon), canon}[rng.Intn(3)]
+				r.cache.Stop()
+				r.cache, r.cfg = vNewCfg(st, []Issuer{iss}, func(c *Config, _ *CacheOptions) {
+					c.OnDemand = &OnDemandConfig{DecisionFunc: func(context.Context, string) error { return nil }}
+				})
+			}
 			reqs[i] = r
 		}
 		// schedule: every storage call and issuer call of a request is preceded by a virtual pause
@@ -394,6 +419,8 @@ func c01Scenario(t *testing.T, o *vOut, seed int64, maxN, scIdx int) {
 				r.cancel = cancel
 				var err error
 				switch {
+				case r.od:
+					_, err = r.cfg.GetCertificateWithContext(ctx, hsHello(r.spelling))
 				case r.kind == "obtain" && !r.async:
 					err = r.cfg.ObtainCertSync(ctx, r.spelling)
 				case r.kind == "obtain":
@@ -424,6 +451,11 @@ func c01Scenario(t *testing.T, o *vOut, seed int64, maxN, scIdx int) {
 			var rops []vOp
 			for _, op := range ops {
 				if op.Req == r.id {
+					// (a handshake that finds nothing under the name also looks for a stored wildcard
+					// certificate covering it: another subject's bundle, not part of this history)
+					if r.od && strings.Contains(op.Key, "/wildcard_") {
+						continue
+					}
 					rops = append(rops, op)
 				}
 			}
@@ -519,6 +551,11 @@ func c01Scenario(t *testing.T, o *vOut, seed int64, maxN, scIdx int) {
 		o.Line("trace %s %s %s => s%s %s", initial, strings.Join(kindsTok, ","), strings.Join(evtok, ","), ver, strings.Join(obs, ","))
 		o.Stat("traces_validated", 1)
 		o.Stat("requests", n)
+		for _, r := range reqs {
+			if r.od {
+				o.Stat("on_demand_handshake_requests", 1)
+			}
+		}
 		o.Stat("issuer_calls", len(calls))
 		o.Stat("init_"+initial, 1)
 		if useFiles {
@@ -598,7 +635,7 @@ func c01Scenario(t *testing.T, o *vOut, seed int64, maxN, scIdx int) {
 			if op.Kind == "Lock" {
 				lockNames[op.Key] = true
 			}
-			if op.Kind == "Store" || op.Kind == "Exists" || op.Kind == "Load" {
+			if (op.Kind == "Store" || op.Kind == "Exists" || op.Kind == "Load") && !strings.Contains(op.Key, "/wildcard_."+canon[strings.Index(canon, ".")+1:]) {
 				if i := strings.LastIndex(op.Key, "/"); i > 0 {
 					keyDirs[op.Key[:i]] = true
 				}
